@@ -229,7 +229,7 @@ func genTx(pr *histProfile) func(t *rapid.T) hTx {
 			}
 		case "upgrade":
 			tx.Amt = int64(rapid.IntRange(0, 1000).Draw(t, "upheight"))
-			tx.Str = rapid.SampledFrom([]string{"0.0.2", "1.0.0", ""}).Draw(t, "upversion")
+			tx.Str = rapid.SampledFrom([]string{"0.0.2", "1.0.0", "", "0.0.1", "0.0.1", "0.0.0"}).Draw(t, "upversion")
 		case "raw":
 			tx.Str = fmt.Sprintf("%x", rapid.SliceOfN(rapid.Byte(), 0, 40).Draw(t, "rawbytes"))
 		case "structmut":
